@@ -8,6 +8,10 @@ NOTE = ("Trusted: Lean kernel (axioms per theorem in the evidence; only propext/
         "the syn-based translator, the hand-written Lean models (tied to the code by differential runs only), "
         "the cfg(flurry_verif) hooks/inspector and the harness oracles. See DESIGN.md section 9.")
 CLAIMED = {
+ "C01": ("PARTIAL. Machine-checked: the per-key sequential specification, the definition of linearizability, the linearization-point lemma, and soundness AND completeness of the decision procedure (Lin.search / Lin.validate) that is applied to every invocation/response history recorded from the real map: 'ok' from the Lean checker is a proof that the recorded history is linearizable, 'not-linearizable' a proof that it is not. Not proved: that every interleaving of the implementation yields such a history; interleavings are explored on the real code by a deterministic scheduler (every atomic access, lock acquisition, park/unpark and spin is a preemption point; random and PCT schedules; list bins, tree bins, resizes with helpers).", "7 (C01), 10",
+         "Lean 4 theorems (spec, complete decision procedure for histories) + scheduled exploration of the real code"),
+ "C08": ("PARTIAL. Machine-checked: compute_if_present as one step of the per-key specification; in every linearizable history concurrent increments are never lost; the decision procedure for recorded histories is sound and complete (C01). The harness closure counts its invocations and records the value it was shown; histories with cipinc/ciprm calls from 2-4 threads are decided by the Lean checker. Not proved: the lock/re-validate protocol on a small-step model.", "7 (C08), 10",
+         "Lean 4 theorems (spec, no-lost-update) + scheduled exploration of the real code"),
  "C06": ("Machine-checked theorems about the tree-bin model (a case-for-case Lean rendition of TreeBin::new, find_or_put_tree_val, remove_tree_node, balance_insertion/deletion, find_tree_node): the red-black invariant is preserved by every insertion and by every restructuring removal, tree and list hold the same entries, a lookup costs <= 4*log2(n+1) key comparisons. The model is tied to src/node.rs by exact comparison of dumped trees (shape and colours) after every operation of generated sequences; independent validators and comparison counters run on the implementation.", "7 (C06)",
          "Lean 4 invariant proofs on a transcribed tree model + exact tree-dump correspondence"),
  "C09": ("Table theorem: the guard-flow table of every public guard-taking function is regenerated from the source on every run and `decide` shows each one checks the guard (itself or in every callee) before any other use; a general lemma lifts this to 'no use of a foreign guard'. Runtime differential: every such method is called with a guard of an unrelated collector on empty/populated maps.", "7 (C09)",
